@@ -243,6 +243,8 @@ func init() {
 		baseSteps := []step{
 			{sub: true, name: "a"}, {sub: true, name: "b"}, {sub: true, name: ""}, {sub: true, name: "a.b"},
 			{tags: tm()}, {tags: tm("a", "a")}, {tags: tm("a", "b")}, {tags: tm("b", "a")}, {tags: tm("a", "a", "b", "b")}, {tags: tm("b", "c", "a", "c")},
+			// an empty VALUE is a value like any other: it overrides an inherited one
+			{tags: tm("a", "")}, {tags: tm("b", "", "a", "c")},
 		}
 		sanSteps := append(append([]step{}, baseSteps...), step{sub: true, name: "c+a"}, step{tags: tm("c", "=")}, step{tags: tm("a.", "b,")},
 			// keys that differ from an inherited key only before sanitizing: the later value must still win
@@ -250,7 +252,7 @@ func init() {
 		delimSteps := []step{
 			{sub: true, name: "a"}, {sub: true, name: "a+b"},
 			{tags: tm("a", "a,b=b")}, {tags: tm("a", "a", "b", "b")}, {tags: tm("a=b", "c")}, {tags: tm("a", "b=c")},
-			{tags: tm("", "a")}, {tags: tm("", "b")}, {tags: tm("a", "a")}, {tags: tm("b", "b")},
+			{tags: tm("", "a")}, {tags: tm("", "b")}, {tags: tm("a", "a")}, {tags: tm("b", "b")}, {tags: tm("a", "")},
 		}
 		roots := []rootCfg{
 			{prefix: "", sep: "", tags: nil},
